@@ -372,7 +372,10 @@ def _k4(ctx: Context, ss, ser, des) -> None:
                     # the length is a byte (0..255): `> 254` / `>= 255` single out 255 just as `== 255` does; a lower threshold
                     # continues after fragments that are not full
                     trig = k_ if cp[1] == "Eq" else 255 if (cp[1], k_) in (("Gt", 254), ("GtE", 255)) else f"{'>' if cp[1] == 'Gt' else '>='} {k_}"
-    ck.check("C16.K4", trig == 255 and K_step in (255, None), "decoder: a value continues exactly after a 255-byte fragment", f"{ctx.fkey(itf)}:continuation", f"tlv_iterator continues a value when length == {trig}; the encoder fragments at {K_step}", itf.loc())
+    if trig is None:
+        ck.unknown("C16.K4", "tlv_iterator: the continuation loop is not driven by a comparison of the length with a constant in its own condition (a flag?): the trigger is not decided", itf.loc())
+    else:
+        ck.check("C16.K4", trig == 255 and K_step in (255, None), "decoder: a value continues exactly after a 255-byte fragment", f"{ctx.fkey(itf)}:continuation", f"tlv_iterator continues a value when length == {trig}; the encoder fragments at {K_step}", itf.loc())
     # declaration order: for f in fields(self)
     order = any(n.kind == "for_iter" and isinstance(n.ast.iter, ast.Call) and ctx.resolve_name(ef, n.ast.iter.func) == "dataclasses.fields" and _u(n.ast.iter.args[0]) == "self" for n in ecfg.nodes)
     ck.check("C16.K4", order, "fields are emitted in declaration order (dataclasses.fields(self))", f"{ctx.fkey(ef)}:order", "TLVStruct.encode no longer iterates dataclasses.fields(self)", ef.loc())
@@ -804,7 +807,12 @@ def _t1_array(ctx: Context) -> None:
     oky = False
     if len(loops) == 1 and isinstance(loops[0].target, ast.Tuple) and len(loops[0].target.elts) == 4:
         o2 = _u(loops[0].target.elts[0])
-        starts = [x for x in walk_own(a.node) if isinstance(x, ast.Assign) and isinstance(x.targets[0], ast.Name) and src(x.value) in (f"{o2}+2", f"2+{o2}")]
+        def _plus2(v_):
+            # <offset> + 2 in any order, the 2 a literal or a named constant
+            return isinstance(v_, ast.BinOp) and isinstance(v_.op, ast.Add) and any(
+                _u(p_) == o2 and ctx.const(a, q_, None) == 2 and type(ctx.const(a, q_, None)) is int for p_, q_ in ((v_.left, v_.right), (v_.right, v_.left)))
+
+        starts = [x for x in walk_own(a.node) if isinstance(x, ast.Assign) and isinstance(x.targets[0], ast.Name) and _plus2(x.value)]
         if len(starts) == 1:
             sv = starts[0].targets[0].id
             oky = srcs == sorted([f"{abuf}[{sv}:{o2}]", f"{abuf}[{sv}:]"])
